@@ -326,12 +326,37 @@ func ruleTriggerDispatch(c *Ctx) {
 
 func ruleCSVImport(c *Ctx) {
 	const rule = "R33.1"
-	s := c.S(rule, "cmd/connect/loader.CSVtoNumpyMulti")
-	if s == nil {
+	if c.S(rule, "cmd/connect/loader.CSVtoNumpyMulti") == nil {
 		return
 	}
 	n := 0
-	for _, site := range s.sites(callPred(s, "(*encoding/csv.Reader).Read")) {
+	var helpers []string
+	for _, fn := range c.P.NonTestFuncs() {
+		if fn.PkgShort() != "cmd/connect/loader" || fn.Decl.Body == nil {
+			continue
+		}
+		s := c.P.ScopeOf(fn)
+		sites := s.sites(callPred(s, "(*encoding/csv.Reader).Read"))
+		if len(sites) > 0 && fn.Key != "cmd/connect/loader.CSVtoNumpyMulti" && fn.Key != "cmd/connect/loader.ReadMetadata" {
+			helpers = append(helpers, fn.Key)
+		}
+		if fn.Key == "cmd/connect/loader.ReadMetadata" {
+			continue // reads the header line only; its error handling is covered by R33.4
+		}
+		n += c.csvReadSites(rule, s, sites)
+	}
+	c.Floor(rule, "cmd/connect/loader", "csv.Reader.Read sites in the row loop", n, 1)
+	if len(helpers) > 0 {
+		// the row loop was extracted: the helper's error must be propagated by its callers
+		c.checkErrorsNotDropped(rule, helpers, func(f *Func) bool { return f.PkgShort() == "cmd/connect/loader" }, 1,
+			"the error of the extracted row-reading helper must reach the caller of the import", false)
+	}
+	c.csvRest()
+}
+
+func (c *Ctx) csvReadSites(rule string, s *Scope, sites []ast.Node) int {
+	n := 0
+	for _, site := range sites {
 		n++
 		call := site.(*ast.CallExpr)
 		top := s.topOf(call)
@@ -369,7 +394,10 @@ func ruleCSVImport(c *Ctx) {
 				"any error of csv.Reader.Read (wrong field count, bare quote, I/O error) is treated as end of file: the remaining rows are dropped and the import reports success", r.Hits[0].Path)
 		}
 	}
-	c.Floor(rule, s.Name, "csv.Reader.Read sites", n, 1)
+	return n
+}
+
+func (c *Ctx) csvRest() {
 	// R33.2: a failed time parse is an error, not an empty result
 	const r2 = "R33.2"
 	if cv := c.S(r2, "cmd/connect/loader.convertCSVtoCSM"); cv != nil {
